@@ -26,7 +26,7 @@ fn count_nodes(v: &Value) -> usize {
 
 const FAULTS: &[&str] = &[
     "delete", "null", "true", "int0", "int-1", "int-huge", "int-2^31", "int--2^31-1", "float0.5", "float1e400", "string", "empty-string",
-    "array", "object", "duplicate", "swap-next", "wrap-array",
+    "array", "object", "duplicate", "swap-next", "wrap-array", "long-nonascii-array-0", "long-nonascii-array-1", "long-nonascii-array-2", "long-nonascii-string", "long-nonascii-object",
 ];
 
 /// Applies fault `f` to the `target`-th node (pre-order). Returns false if not applicable.
@@ -85,6 +85,13 @@ fn replacement(f: &str) -> Option<Value> {
         "empty-string" => json!(""),
         "array" => json!([]),
         "object" => json!({}),
+        // long values full of 3-byte characters at every byte alignment: error paths that quote or shorten the
+        // offending value must cope with them
+        "long-nonascii-array-0" => json!(["^日本語日本語日本語日本語日本語日本語日本語日本語日本語日本語", "\n", null]),
+        "long-nonascii-array-1" => json!(["^a日本語日本語日本語日本語日本語日本語日本語日本語日本語日本語", "\n", null]),
+        "long-nonascii-array-2" => json!(["^ab日本語日本語日本語日本語日本語日本語日本語日本語日本語日本語", "\n", null]),
+        "long-nonascii-string" => json!("ééééééééééééééééééééééééééééééééééééééééééééééééééééééééééééééééééééééé🙂🙂🙂🙂🙂🙂🙂🙂🙂🙂"),
+        "long-nonascii-object" => json!({"键键键键键键键键键键键键键键键键键键键键键键键键键键键键": "值值值值值值值值值值值值值值值值值值值值值值值值"}),
         _ => return None,
     })
 }
@@ -251,6 +258,23 @@ fn base_documents(cfg: &Cfg, rep: &mut Report) -> Vec<Doc> {
     Rng::derive(cfg.seed, "C15-corpus", 0).shuffle(&mut idx);
     for i in idx.into_iter().take(cfg.pick(10, 40)) {
         stories.push(corpus[i].clone());
+    }
+    // every other story gets non-ASCII / control / quote-heavy text injected into its strings, so that damaged
+    // documents (and the error paths that quote them) also carry multi-byte characters
+    for (k, c) in stories.iter_mut().enumerate() {
+        if k % 2 == 1 {
+            continue;
+        }
+        if let Ok(mut v) = serde_json::from_str::<Value>(&c.json) {
+            let mut n = 0;
+            let mut trng = Rng::derive(cfg.seed, "C15-text", k as u64);
+            crate::jsonstyle::inject_text(&mut v, &mut trng, &mut n);
+            if n > 0
+                && let Some(h) = crate::programs::from_json(&format!("{}+hostile-text", c.name), v.to_string(), c.src.clone())
+            {
+                *c = h;
+            }
+        }
     }
     for c in stories.iter() {
         docs.push(Doc::Story(c.name.clone(), c.json.as_ref().clone()));
